@@ -320,3 +320,13 @@ def block_parts(b):
     if st and st[-1]["k"] == "expr" and not st[-1]["semi"]:
         return st[:-1], st[-1]["expr"]
     return st, None
+
+
+def resolve(e, env, depth=4):
+    """follow single-identifier paths through an environment of `let name = expr` initialisers"""
+    e = strip_expr(e)
+    while depth > 0 and e is not None and e.get("k") == "path" and not e.get("qself") and len(e["path"]["segs"]) == 1 \
+            and e["path"]["segs"][0]["id"] in env:
+        e = strip_expr(env[e["path"]["segs"][0]["id"]])
+        depth -= 1
+    return e
